@@ -13,7 +13,7 @@ import (
 // alphabets: every character class the bonus table distinguishes, plus the
 // folding corner cases (accented, title-case, letter-number, wide).
 var smallAlpha = []rune{'a', 'A', 'b', '1', ' ', '/', '_', 'é', '\x01'}
-var fullAlpha = []rune{'a', 'b', 'c', 'A', 'B', 'C', '1', '2', ' ', '\t', '/', ',', '-', '_', '.', '\x01', '\x1b', '\x00', '\x7f', '\n', '\r', 'é', 'É', 'ö', 'ǅ', 'ǆ', 'Ⅷ', 'ⅷ', '日', 'İ', ' ', '́', '�'}
+var fullAlpha = []rune{'a', 'b', 'c', 'A', 'B', 'C', '1', '2', ' ', '\t', '/', ',', '-', '_', '.', '\x01', '\x1b', '\x00', '\x7f', '\n', '\r', '\v', '\f', 'é', 'É', 'ö', 'ǅ', 'ǆ', 'Ⅷ', 'ⅷ', '日', 'İ', ' ', '́', '�'}
 var patAlphaSmall = []rune{'a', 'A', 'b', '1', '_', 'é', ' ', '/'}
 
 func init() {
@@ -152,7 +152,7 @@ func (c *checker) randText(n int) []rune {
 	for i := range t {
 		switch mode {
 		case 0: // ASCII only (bytes representation)
-			t[i] = fullAlpha[c.rng.Intn(21)]
+			t[i] = fullAlpha[c.rng.Intn(23)]
 		case 1: // words
 			if c.rng.Intn(5) == 0 {
 				t[i] = []rune{' ', '/', '-', '_', '.', '\x01', '\t'}[c.rng.Intn(7)]
